@@ -104,17 +104,26 @@ def value_for(t, i, depth=0):
     if c == 'uchar':
         v = 100 + (i * 7 + salt) % 150
         return v, 'uc%d' % v
+    edge = R.random() < 0.12            # now and then a value from the edge of the type
     if c == 'int':
         v = (i + 1) * 11 + salt - 40
+        if edge:
+            v = R.choice([0, -1, -2147483648, 2147483647, -(i + 1) * 1000003])
         return v, str(v)
     if c == 'size_t':
         v = (i + 1) * 13 + salt
+        if edge:
+            v = R.choice([0, 2 ** 32 + i, 2 ** 53 + 1 + i, 2 ** 64 - 1 - i])
         return v, str(v)
     if c == 'double':
         v = (i + 1) * 1.5 + salt + 0.125
+        if edge:
+            v = R.choice([0.0, -0.5 - i, 1e300, -1e-300, 123456789.125 + i])
         return v, fmt_double(v)
     if c == 'string':
         v = 'arg%d_%d' % (i, salt)
+        if edge:
+            v = R.choice(['', ' ', 'a b  c', 'q"uote', "it's", 'back\\slash', 'caf\u00e9 \u6f22', 'x' * 300])
         return v, "'%s'" % v
     if c == 'enum':
         e = plan['enum_table'][t['enum']]
@@ -123,9 +132,9 @@ def value_for(t, i, depth=0):
         name, val = e['vals'][(i + salt) % len(e['vals'])]
         return getattr(resolve(e['py']), name), 'e%d' % val
     if c == 'vector':
-        a, sa = value_for(t['elem'], i, depth)
-        b, sb = value_for(t['elem'], i + 1, depth)
-        return [a, b], '[%s,%s]' % (sa, sb)
+        n = R.choice([2, 2, 0, 1, 5])
+        items = [value_for(t['elem'], i + j, depth) for j in range(n)]
+        return [a for a, _ in items], '[%s]' % ','.join(s_ for _, s_ in items)
     if c == 'object':
         o = make_object(t['class'], depth)
         if t.get('mode') in ('ref', 'shared', 'raw'):
